@@ -16,7 +16,7 @@
    options are well-formed and padded ... addresses and ports are those of the socket"
      TCP, any option list the encoders produce, IPv4 / IPv6     C06_tcp_frame_wf4, C06_tcp_frame_wf6
      sendSynTCP, every MSS/WS/TS/SACK-permitted combination      C06_syn_frame_wf4
-     sendRaw, timestamps on/off, 0..3 (4) SACK blocks            C06_seg_frame_wf4
+     sendRaw, timestamps on/off, any number of SACK blocks       C06_seg_frame_wf4_any (C06_seg_frame_wf4: untruncated case)
      UDP (payload <= 65507 / 65527) - PARTIAL: computed checksum non-zero
                                                                  C06_udp_frame_wf4_partial, C06_udp_frame_wf6_partial
        refuted in full: a computed checksum of 0 is transmitted as 0 ("none", RFC 768)
@@ -260,3 +260,27 @@ Theorem C06_eth_write_frame : forall r ep proto pkt,
     Rfc.eth_dst f = rRemoteLink r /\ Rfc.eth_src f = src /\ Rfc.eth_type_of f = proto /\ skipn 14 f = pkt.
 Proof. exact eth_write_frame. Qed.
 Print Assumptions C06_eth_write_frame.
+
+Theorem C06_seg_frame_wf4_any : forall r sp dp data fl sq ak wnd (tsOk : bool) tsVal tsEcr (sackPermitted : bool) blocks pool ttl c,
+  rOffload r = false ->
+  length (rLocal r) = 4%nat -> length (rRemote r) = 4%nat -> bytes_ok (rLocal r) -> bytes_ok (rRemote r) ->
+  Rfc.src4_ok (rLocal r) = true ->
+  0 <= sp < 65536 -> 0 <= dp < 65536 -> 0 <= fl < 256 -> flag_sane fl = true -> Rfc.has fl Rfc.SYN = false ->
+  wf_opt tsVal tsEcr blocks -> length pool = maxOptionSize ->
+  Forall bytes_ok data -> nonfinal_even data -> vsize data <= 65455 -> 1 <= ttl < 256 ->
+  exists hdr frame c',
+    send_raw r sp dp data fl sq ak wnd tsOk tsVal tsEcr sackPermitted blocks pool = Some hdr /\
+    ipv4_write r hdr data 6 ttl c = Some (frame, c') /\
+    Rfc.wf_ipv4 false frame = true /\
+    Rfc.ivSrc (Rfc.view_ip4 frame) = rLocal r /\ Rfc.ivDst (Rfc.view_ip4 frame) = rRemote r /\
+    Rfc.ivPayload (Rfc.view_ip4 frame) = hdr ++ concat data /\
+    Rfc.tvSport (Rfc.view_tcp (hdr ++ concat data)) = sp /\ Rfc.tvDport (Rfc.view_tcp (hdr ++ concat data)) = dp /\
+    Rfc.tvSeq (Rfc.view_tcp (hdr ++ concat data)) = w32 sq /\ Rfc.tvAck (Rfc.view_tcp (hdr ++ concat data)) = w32 ak /\
+    Rfc.tvFlags (Rfc.view_tcp (hdr ++ concat data)) = fl /\
+    Rfc.tvWnd (Rfc.view_tcp (hdr ++ concat data)) = w16 (clampw wnd) /\
+    Rfc.tvPayload (Rfc.view_tcp (hdr ++ concat data)) = concat data /\
+    parseTCPOptions (Rfc.tvOpts (Rfc.view_tcp (hdr ++ concat data))) =
+      Ok (mkOpts tsOk (if tsOk then tsVal else 0) (if tsOk then tsEcr else 0)
+                 (if sackPermitted then firstn (if tsOk then 3 else 4) blocks else [])).
+Proof. exact seg_frame_wf4_any. Qed.
+Print Assumptions C06_seg_frame_wf4_any.
